@@ -487,7 +487,14 @@ func main() {
 	}
 	sc := bufio.NewScanner(os.Stdin)
 	sc.Buffer(make([]byte, 1<<20), 1<<28)
-	w := bufio.NewWriter(os.Stdout)
+	// some kernels print diagnostics with fmt.Printf: keep them out of the result stream of
+	// the in-process commands (DIRECT); the RUN children have their own stdout, which is
+	// what the property is about
+	realOut := os.Stdout
+	if devnull, err := os.OpenFile(os.DevNull, os.O_WRONLY, 0); err == nil {
+		os.Stdout = devnull
+	}
+	w := bufio.NewWriter(realOut)
 	defer w.Flush()
 	for sc.Scan() {
 		line := strings.TrimSpace(sc.Text())
